@@ -189,23 +189,34 @@ def parse_kani(out):
 
 
 def resolve_unwindset(h, workdir):
-    """Loop labels contain crate hashes; resolve `regex:n` pairs against cbmc --show-loops."""
-    outdir = None
+    """Loop labels contain crate hashes; resolve `regex:n` pairs against cbmc --show-loops on the harness's goto
+    binary (linked with Kani's C library the way kani-driver does it)."""
+    cands = []
     for root, _, files in os.walk(os.path.join(target_dir(), "kani")):
         for f in files:
-            if f.endswith(".symtab.out") and f"{len(h.module)}{h.module}{len(h.name)}{h.name}." in f.replace(".symtab", "."):
-                outdir = os.path.join(root, f)
-    if not outdir:
+            if f.endswith(".symtab.out") and f"{len(h.module)}{h.module}{len(h.name)}{h.name}.symtab.out" in f:
+                cands.append(os.path.join(root, f))
+    if not cands:
         return None, "goto binary not found"
-    p = subprocess.run(["cbmc", "--show-loops", outdir], stdout=subprocess.PIPE, stderr=subprocess.STDOUT, text=True)
-    loops = re.findall(r"Loop (\S+):\n\s+file (\S+) line (\d+) function (.*)", p.stdout)
+    symtab = max(cands, key=os.path.getmtime)
+    tmp = os.path.join(SCRATCH, f"loops-{h.name}.out")
+    kani_lib = os.path.expanduser("~/.kani/kani-0.68.0/library/kani/kani_lib.c")
+    try:
+        subprocess.run(["goto-cc", symtab, kani_lib, "-o", tmp], check=True, stdout=subprocess.DEVNULL, stderr=subprocess.DEVNULL)
+        subprocess.run(["goto-instrument", "--add-library", "--no-malloc-may-fail", tmp, tmp], check=True,
+                       stdout=subprocess.DEVNULL, stderr=subprocess.DEVNULL)
+        p = subprocess.run(["cbmc", "--show-loops", tmp], stdout=subprocess.PIPE, stderr=subprocess.STDOUT, text=True)
+    finally:
+        if os.path.exists(tmp):
+            os.remove(tmp)
+    loops = re.findall(r"Loop (\S+):\n\s+file (.*?) line (\d+)(?: column \d+)? function (.*)", p.stdout)
     pairs, used = [], []
     for spec in h.unwindset.split(";"):
         rx, n = spec.rsplit(":", 1)
         hit = False
         for label, file, line, fn in loops:
-            if re.search(rx, f"{fn} {file}"):
-                pairs.append(f"{label}:{n}")
+            if re.search(rx, f"{label} {fn} {file}"):
+                pairs.append(f"{label}:{n.strip()}")
                 hit = True
         used.append((rx, n, hit))
     return pairs, used
@@ -222,8 +233,11 @@ def run_harness(h, workdir, tier, logdir):
     extra = []
     if h.unwindset:
         pairs, used = resolve_unwindset(h, workdir)
+        h.unwindset_resolved = pairs
         if pairs:
             extra += ["--unwindset", ",".join(pairs)]
+        if not pairs or any(not u[2] for u in used):
+            h.unwindset_problem = f"unwindset pattern(s) matched no loop: {used}"
     if extra:
         cmd += ["--cbmc-args"] + extra
     logf = os.path.join(logdir, h.name + ".log")
@@ -239,12 +253,16 @@ def run_harness(h, workdir, tier, logdir):
     ru = resource.getrusage(resource.RUSAGE_CHILDREN)
     r.maxrss_children_mb = ru.ru_maxrss // 1024
     r.timeout_hit = p.returncode in (124, 137)
-    r.oom = ("std::bad_alloc" in out) or ("Out of memory" in out) or ("memory exhausted" in out.lower())
+    r.oom = ("std::bad_alloc" in out) or ("Out of memory" in out) or ("memory exhausted" in out.lower()) \
+        or ("ran out of memory" in out)
+    r.n_error_status = len(re.findall(r"- Status: ERROR", out))
     r.error = None
     if r.timeout_hit:
         r.error = f"timeout after {timeout}s"
     elif r.verdict is None:
         r.error = "no verdict (rc=%d%s)" % (p.returncode, ", out of memory" if r.oom else "")
+    elif r.oom or r.n_error_status:
+        r.error = "solver ran out of memory / CBMC reported ERROR status for %d checks" % r.n_error_status
     return r
 
 
